@@ -36,7 +36,7 @@ import ufl2coq
 import vlib
 from elements import LagrangeElement
 
-HAND_FILES = ["Props/C21_ind.v", "Props/C21_model.v"]
+HAND_FILES = ["Props/C21_ind.v", "Props/C21_model.v", "Props/C21_formsum.v"]
 
 # replace is a substitution: after normalisation both sides are usually syntactically equal; the derivation laws
 # (Ltac of py/C03_coq.py) are only needed when a constant image ended up under a derivative
@@ -396,6 +396,182 @@ def form_cases(run, rng, quick):
     return cases
 
 
+# ---------------------------------------------------------------------------------------------
+# BaseForm level: weighted sums of forms, and ExternalOperator nodes
+
+def fs_terms(S):
+    from ufl.form import FormSum
+    if isinstance(S, FormSum):
+        return list(zip(S.components(), S.weights()))
+    if S == 0:
+        return []
+    return [(S, 1)]
+
+
+def formsum_checks(run, gen, quick):
+    """T3 on FormSum: the real replace must pair every surviving component with ITS weight; the (component, weight)
+    list of the result is compared with the Gallina model fs_replace (coq/Props/C21_formsum.v) by vm_compute, where
+    the per-component images are those of the real replace on the component alone (traced by the form family)."""
+    from ufl.form import FormSum
+    V = gen.f[0].ufl_function_space()
+    u, z = ufl.Coefficient(V), ufl.Coefficient(V)
+    co = [ufl.Cofunction(V.dual()) for _ in range(4)]
+    A = ufl.Matrix(V, V)
+    v = ufl.TestFunction(V)
+    dxm = ufl.Measure("dx", domain=gen.mesh)
+    # only BaseForm components that FormSum keeps apart (Forms are merged into one Form by the FormSum constructor)
+    A2 = ufl.Matrix(V, V)
+    comps = {"action": ufl.Action(A, u), "c0": co[0], "c1": co[1], "c2": co[2], "action_f": ufl.Action(A, gen.f[1]),
+             "action2": ufl.Action(A2, u), "action_z": ufl.Action(A2, z)}
+    weights = [2.0, 3.0, 5.0, -1.0, 0.5, 7.0]
+    rng = random.Random(run.seed + 11)
+    pats = [(["action", "c0", "c1"], {u: 0}), (["c0", "action", "c1"], {u: 0}), (["c0", "c1", "action"], {u: 0}),
+            (["action", "c0", "c1"], {u: z}), (["action", "c0", "c1"], {co[0]: co[3]}), (["action_f", "c0", "action2", "c1"], {u: 0}),
+            (["c0", "action_f", "action", "c2"], {u: 0.0}), (["action", "action_f"], {u: 0}), (["action_f", "action", "c0"], {gen.f[1]: 0}),
+            (["c0", "c1"], {u: z}), (["action", "action2", "c0", "c1", "c2"], {u: 0, co[1]: co[3]}),
+            (["action", "action_z", "c0"], {u: z})]
+    for _ in range(4 if quick else 30):
+        names = rng.sample(list(comps), rng.choice([2, 3, 4]))
+        m = rng.choice([{u: 0}, {u: z}, {gen.f[1]: 0}, {co[0]: co[3], u: 0}, {gen.f[1]: z}])
+        pats.append((names, m))
+    txt = ["Require Import UFLV.Core.Den UFLV.Props.C21_formsum.\n"]
+    lemmas, meta = [], {}
+    for k, (names, m) in enumerate(pats):
+        ws = rng.sample(weights, len(names))
+        S = FormSum(*[(comps[n], w) for n, w in zip(names, ws)])
+        rep = {"input_formsum": [(str(comps[n])[:120], w) for n, w in zip(names, ws)],
+               "mapping": {repr(a)[:200]: repr(ufl.as_ufl(b))[:200] for a, b in m.items()},
+               "reproduce": "ufl.replace(FormSum((component, weight), ...), mapping)"}
+        run.count_case(("formsum", k, names, ws, sorted(str(a) for a in m)))
+        try:
+            got = fs_terms(replace(S, m))
+            images = [replace(comps[n], m) for n in names]
+        except Exception as ex:
+            run.violation(dict(rep, broken="replace raised on a FormSum", exception=f"{type(ex).__name__}: {ex}"), True)
+            continue
+        # number components (by ==) and weights
+        ids, wid = [], []
+
+        def cid(c):
+            for i, x in enumerate(ids):
+                if type(x) is type(c) and x == c:
+                    return i
+            ids.append(c)
+            return len(ids) - 1
+
+        def wtag(w):
+            w = float(w)
+            if w not in wid:
+                wid.append(w)
+            return wid.index(w)
+        src = [(cid(comps[n]), wtag(w)) for n, w in zip(names, ws)]
+        rmap = {}
+        for n, im in zip(names, images):
+            rmap[cid(comps[n])] = None if im == 0 else cid(im)
+        outl = [(cid(c), wtag(w)) for c, w in got]
+        arms = "".join(f"  | {a} => {'Some ' + str(b) if b is not None else 'None'}\n" for a, b in sorted(rmap.items()))
+        plist = lambda l: "[" + "; ".join(f"({a}, {b})" for a, b in l) + "]"  # noqa: E731
+        nm = f"fs_{k}"
+        txt.append(f"Definition {nm}_r (c : nat) : option nat :=\n  match c with\n{arms}  | _ => None\n  end.\n"
+                   f"Example {nm} : fs_replace nat nat {nm}_r {plist(src)} = {plist(outl)}. Proof. vm_compute. reflexivity. Qed.\n")
+        lemmas.append(nm)
+        expected = [(im, w) for im, w in zip(images, ws) if im != 0]
+        meta[nm] = dict(rep, observed=[(str(c)[:120], float(w)) for c, w in got],
+                        expected=[(str(c)[:120], float(w)) for c, w in expected])
+    path = os.path.join(vlib.GEN, "C21_formsum_cases.v")
+    vlib.write_if_changed(path, "".join(txt))
+    res = vlib.coqc(path, timeout=600)
+    # every Example is checked separately when the file fails, so that each broken case is reported with its input
+    if res.ok:
+        run.add_coq_result(res, lemmas)
+    else:
+        bad = []
+        for nm in lemmas:
+            if meta[nm]["observed"] != meta[nm]["expected"]:
+                bad.append(nm)
+        run.obligations += [(n, "Gen/C21_formsum_cases.v") for n in lemmas]
+        run.discharged += [(n, "Gen/C21_formsum_cases.v") for n in lemmas if n not in bad]
+        for nm in bad or [res.failing_lemma() or "?"]:
+            run.failed.append((nm, "Gen/C21_formsum_cases.v", (res.err or "")[-200:]))
+            run.violation(dict(meta.get(nm, {}), broken_obligation=nm,
+                               broken="replace on a FormSum: the (component, weight) list of the result differs from the "
+                                      "model fs_replace (survivors must keep their own weights)"), nm in meta)
+    run.checker_cmds.append("coqc -Q coq UFLV coq/Gen/C21_formsum_cases.v")
+    return []
+
+
+def external_operator_checks(run, gen):
+    """Validation (no Coq obligation: ExternalOperator is outside the calculus of coq/Core): replace must rebuild an
+    ExternalOperator with the same class, function space and DERIVATIVE multi-index, with replaced operands and argument
+    slots, and must return an expression that mentions no mapped terminal unchanged."""
+    from ufl.algorithms import expand_derivatives
+    from ufl.core.external_operator import ExternalOperator
+    V = gen.f[0].ufl_function_space()
+    u, g, w, z = (ufl.Coefficient(V) for _ in range(4))
+    v = ufl.TestFunction(V)
+    dxm = ufl.Measure("dx", domain=gen.mesh)
+    N = ExternalOperator(u, g, function_space=V)
+    ops = {"plain": N, "d01": expand_derivatives(ufl.derivative(N, g)), "d10": expand_derivatives(ufl.derivative(N, u)),
+           "d02": ExternalOperator(u, g, function_space=V, derivatives=(0, 2)),
+           "d11": ExternalOperator(u * g, g, function_space=V, derivatives=(1, 1))}
+
+    def expected_op(o, m):
+        return type(o)(*[replace(x, m) for x in o.ufl_operands], function_space=o.ufl_function_space(),
+                       derivatives=o.derivatives, argument_slots=tuple(replace(a, m) for a in o.argument_slots()))
+
+    def sig(e):
+        ex = e.integrals() if isinstance(e, ufl.Form) else [e]
+        out = []
+        for x in ex:
+            x = x.integrand() if hasattr(x, "integrand") else x
+            out += [(type(o).__name__, o.derivatives, tuple(str(p) for p in o.ufl_operands),
+                     tuple(str(a) for a in o.argument_slots())) for o in extract_type(x, ExternalOperator)]
+        return sorted(out)
+    nviol0 = len(run.violations)
+    for nm, o in ops.items():
+        if len(run.violations) - nviol0 >= 6:
+            break                       # enough evidence; the remaining configurations are not run
+        for mn, m in [("operand", {u: w}), ("operand_expr", {u: w * g}), ("both", {u: g, g: u}), ("untouched", {z: w}),
+                      ("empty", {})]:
+            run.count_case(("external_operator", nm, mn))
+            rep = {"input_expr": str(o), "derivatives": list(o.derivatives),
+                   "mapping": {str(a): str(b) for a, b in m.items()}, "reproduce": "ufl.replace(N, mapping) with N an "
+                   "ExternalOperator(u, g, function_space=V, derivatives=...)"}
+            try:
+                r = replace(o, m)
+                exp = expected_op(o, m)
+            except Exception as ex:
+                run.violation(dict(rep, broken="replace raised on an ExternalOperator", exception=f"{type(ex).__name__}: {ex}"), True)
+                continue
+            ok = isinstance(r, ExternalOperator) and r.derivatives == o.derivatives and r == exp
+            if mn in ("untouched", "empty"):
+                ok = ok and r == o
+            if not ok:
+                run.violation(dict(rep, broken="replace changed an ExternalOperator other than by substituting its operands",
+                                   expected=f"{exp} derivatives={exp.derivatives}",
+                                   observed=f"{r} derivatives={getattr(r, 'derivatives', None)}"), True)
+            # inside an expression and inside a form
+            for cn, e in [("expr", gen.f[1] * o + u), ("form", o * v * dxm + ops["plain"] * v * dxm)]:
+                run.count_case(("external_operator", nm, mn, cn))
+                try:
+                    r = replace(e, m)
+                    exp_sig = sorted(sig(gen.f[1] * expected_op(o, m)) + (sig(expected_op(ops["plain"], m)) if cn == "form" else []))
+                except Exception as ex:
+                    run.violation(dict(rep, context=cn, broken="replace raised on an expression containing an ExternalOperator",
+                                       exception=f"{type(ex).__name__}: {ex}"), True)
+                    continue
+                if sig(r) != exp_sig or (mn in ("untouched", "empty") and not (r == e)):
+                    run.violation(dict(rep, context=cn, input_expr=str(e)[:500], broken="ExternalOperator nodes of the result "
+                                       "differ from the substituted ones (class, derivatives, operands, argument slots)",
+                                       expected=str(exp_sig)[:800], observed=str(sig(r))[:800]), True)
+
+
+def hash_small(*parts):
+    """deterministic small hash (PYTHONHASHSEED independent)"""
+    import zlib
+    return zlib.crc32("/".join(parts).encode())
+
+
 def subst_env_factory(mapping):
     def factory(seed):
         base = pyden.Env(nv=3, order=3, seed=seed)
@@ -613,31 +789,87 @@ def main(run):
             rep.update({"input_expr": str(c.inp), "mapping": {str(a): str(b) for a, b in c.mapping.items()}})
         run.violation(rep, False)
 
-    # --- CoefficientDerivative inside e: replace expands derivatives first
+    # --- pending derivative() nodes anywhere in e (root, below products/sums/functions, in form integrands):
+    #     the documented behaviour is "expand derivatives first, then substitute"; images that already occur in the
+    #     differentiated expression distinguish this from "substitute, then differentiate"
     from ufl.algorithms import expand_derivatives
     dcases = []
     du = ufl.Coefficient(f.ufl_function_space())
-    for nm, F, key, img in [("deriv_prod", f * f * h, f, h), ("deriv_sin", ufl.sin(f) * h, f, h * w),
-                            ("deriv_grad", ufl.inner(ufl.grad(f), ufl.grad(f)) * h, f, h)]:
-        e = ufl.derivative(F, key, du)
-        try:
-            out = replace(e, {key: img})
-        except Exception as ex:
-            run.violation({"broken": "replace raised on an expression containing an unexpanded derivative "
-                                     "(the documented behaviour is: expand derivatives first, then substitute)",
-                           "input_expr": f"derivative({F}, {key}, {du})", "input_repr": repr(e)[:3000],
-                           "mapping": {repr(key): repr(ufl.as_ufl(img))}, "exception": f"{type(ex).__name__}: {ex}",
-                           "reproduce": "ufl.replace(ufl.derivative(F, u, du), {u: image})"}, True)
-            continue
-        if extract_type(out, C.CoefficientDerivative):
-            out = expand_derivatives(out)
-        e_exp = expand_derivatives(e)
-        cs = SubstCase(f"d_{nm}", out, e_exp, {key: img}, ctx=ufl2coq.Ctx(), tactic=TACTIC,
-                       note={"family": "coefficient derivative", "F": str(F), "key": str(key), "image": str(img)})
-        # the deg-0 hypothesis is not needed here
-        dcases.append(cs)
+    dxm_ = ufl.Measure("dx", domain=gen.mesh)
+    dpat = []
+    bodies = [("prod", f * f * h), ("sin", ufl.sin(f) * h), ("grad", ufl.inner(ufl.grad(f), ufl.grad(f)) * h),
+              ("mixed", f * h * h + f * f * w)]
+    images = [("present", h), ("fresh", ufl.Coefficient(f.ufl_function_space())), ("expr", h * w), ("zero", 0)]
+    for bn, F in bodies:
+        D = ufl.derivative(F, f, du)
+        ctxs = [("root", D), ("product", c0 * D), ("sum", w * D + f * h), ("function", ufl.exp(D) * f),
+                ("restricted", D("+") * h("-")), ("form", c0 * D * dxm_ + f * h * dsm(1)), ("form_root", D * dxm_)]
+        if not quick:
+            ctxs += [("nested", ufl.derivative(f * D, h, du)), ("variable", ufl.variable(D) * h)]
+        for cn, e in ctxs:
+            for inm, img in images:
+                if bn == "sin" and inm == "zero":
+                    continue            # cos(0) is folded to 1 numerically by the constructor (literal folding, C05)
+                if quick and (hash_small(bn, cn, inm) % 3):       # a third of the grid in the quick tier, all in thorough
+                    continue
+                dpat.append((f"{bn}_{cn}_{inm}", e, {f: img}))
+    dpat += [("two_keys", c0 * ufl.derivative(f * h * w, f, du) + h, {f: h, h: w}),
+             ("direction_key", w * ufl.derivative(f * f * h, f, du), {du: h})]
+    for nm, e, m in dpat:
         run.count_case(("derivative", nm))
-    failing_d = C03_coq.emit_and_check(run, "C21d", dcases, timeout=900, extra_header=C03_coq.extra_header(True), shards=1)
+        rep = {"input_expr": str(e)[:1500], "input_repr": repr(e)[:3000],
+               "mapping": {repr(a): repr(ufl.as_ufl(b))[:800] for a, b in m.items()},
+               "expected": "expand_derivatives(e) with every mapped terminal replaced by its image",
+               "reproduce": "ufl.replace(e, mapping) with a pending ufl.derivative(...) inside e"}
+        try:
+            out = replace(e, m)
+        except Exception as ex:
+            run.violation(dict(rep, broken="replace raised on an expression containing an unexpanded derivative "
+                                           "(the documented behaviour is: expand derivatives first, then substitute)",
+                               exception=f"{type(ex).__name__}: {ex}"), True)
+            continue
+        try:
+            if isinstance(out, ufl.Form):
+                if any(extract_type(i.integrand(), C.CoefficientDerivative) for i in out.integrals()):
+                    out = expand_derivatives(out)
+            elif extract_type(out, C.CoefficientDerivative):
+                out = expand_derivatives(out)
+            e_exp = expand_derivatives(e)
+        except Exception as ex:
+            run.violation(dict(rep, broken="the result of replace cannot be expanded", exception=f"{type(ex).__name__}: {ex}",
+                               observed=str(out)[:800]), True)
+            continue
+        pairs = []
+        if isinstance(e, ufl.Form):
+            src = {integral_key(i): i for i in e_exp.integrals()}
+            dst = {integral_key(i): i for i in out.integrals()} if isinstance(out, ufl.Form) else {}
+            for key, itg in src.items():
+                pairs.append((itg.integrand(), dst[key].integrand() if key in dst else ufl.zero()))
+            for key in dst:
+                if key not in src:
+                    run.violation(dict(rep, broken="replace produced an integral the expanded input does not have",
+                                       observed=str(out)[:800]), True)
+        else:
+            pairs.append((e_exp, out))
+        for k_, (src_e, out_e) in enumerate(pairs):
+            cs = make_subst_case(f"d_{nm}_{k_}", ufl.as_ufl(src_e), m, None, random.Random(k_), {
+                "family": "coefficient derivative", "pattern": nm}, out=ufl.as_ufl(out_e))
+            cs.original = e
+            dcases.append(cs)
+    witness_d = {}
+    for cs in dcases:
+        try:
+            w_ = search_mismatch(cs.out, cs.inp, cs.mapping, 2, run.seed)
+        except Exception:
+            w_ = None
+        if w_:
+            witness_d[cs.name] = w_
+    witness.update(witness_d)
+    failing_d = C03_coq.emit_and_check(run, "C21d", dcases, timeout=240 if witness_d else 900, max_rounds=3,
+                                       extra_header=C03_coq.extra_header(True), shards=8)
+
+    failing_d += formsum_checks(run, gen, quick)
+    external_operator_checks(run, gen)
 
     seen = set()
     for case, lemma, msg in failing + failing_d:
